@@ -48,6 +48,10 @@ var cur struct {
 	observe map[string]string
 }
 
+// Unsupported ends the run as inconclusive: the harness met something its oracle cannot judge (for example
+// a construct in generated text that its interpreter does not know). Never a violation.
+func Unsupported(what string) { panic(diverged{"unsupported by the harness oracle: " + what}) }
+
 // Observe hands a text computed by the code under test to the cross-check of the engine's string
 // encoding: under the engine the text (possibly symbolic) is recorded and, for sampled paths, evaluated
 // under the path's model; the native replay of the sample must compute exactly that text.
